@@ -292,6 +292,26 @@ def run(ctx):
         chk.ok(R4, d.qualname, f'{len(cmps)} cross comparisons', detail='always left_key(last_left) vs last_right', nontrivial=False)
     else:
         chk.bad(R4, d.qualname, norm(badc[0]) if badc else 'comparisons', 'a cross comparison does not apply left_key to the left element', where=f'{d.module.relpath}:{(badc[0].lineno if badc else d.lineno)}')
+    # ---------------------------------------------------------------- R5: the merge itself, by finite-domain abstract interpretation
+    R5 = chk.rule('C16.R5', 'detect_where_sorted: on every reachable abstract state one element is yielded per iteration, with the Location the order of the current elements demands, and exactly the yielded side(s) advance', 1)
+    from .merge_ai import AIError, MergeAI
+    try:
+        ai = MergeAI(d)
+        probs5 = ai.run()
+    except AIError as exc:
+        chk.require(False, f'C16.R5: {exc}')
+    seen5 = set()
+    for node5, msg5 in probs5:
+        k5 = msg5
+        if k5 in seen5:
+            continue
+        seen5.add(k5)
+        chk.bad(R5, d.qualname, norm(node5)[:80] if not isinstance(node5, (ast.While, ast.FunctionDef)) else 'merge loop', msg5, where=f'{d.module.relpath}:{getattr(node5, "lineno", d.lineno)}')
+    chk.require(ai.iterations >= 4 or probs5, f'C16.R5: the abstract interpreter explored only {ai.iterations} loop iterations')
+    chk.crash_points += ai.states_seen
+    if not probs5:
+        chk.ok(R5, d.qualname, f'{len(ai.head_states)} abstract loop-head state(s), {ai.iterations} abstract iteration(s), {ai.states_seen} statement evaluations',
+               detail='every element of either sorted unique sequence is classified exactly once and correctly (inductive step of the min-first merge holds in every reachable abstract state)', evals=ai.iterations)
     ci = prog.fn('utils:chunk_iterator')
     txt = norm(ci.node)
     if 'iter(lambda: tuple(itertools.islice(iterator, size)), ())' in txt and 'iterator = iter(iterator)' in txt:
